@@ -93,16 +93,28 @@ theorem getItem_of_gtli {o : Obj} {m : FieldDecl} (h : gtli ptm o = .ok (some m)
   | finst d => simp [gtli] at h; simp [getItem, h]
   | fcls hd => simp only [gtli] at h; simp [getItem, someDecl_ok h]
   | noneV => simp [gtli] at h
-  | ty a => simp [getItem, getItemFallback, h, structFirstUnion]
-  | alias t og args => simp [getItem, getItemFallback, h, structFirstUnion]
-  | tUnion ms => simp [getItem, getItemFallback, h, structFirstUnion]
-  | uType ms => simp [getItem, getItemFallback, h, hu]
-  | noneTy => simp [getItem, getItemFallback, h, structFirstUnion]
+  | ty a => simp [getItem, getItemFallback, h]
+  | alias t og args => simp [getItem, getItemFallback, h]
+  | tUnion ms => simp [getItem, getItemFallback, h]
+  | uType ms => simp [getItem, getItemFallback, h]
+  | noneTy => simp [getItem, getItemFallback, h]
+  | scls d => simp [gtli] at h; simp [getItem, h]
+
+theorem getItem_of_gtli' {o : Obj} {m : FieldDecl} (h : gtli ptm o = .ok (some m)) : getItem ptm o = .ok m := by
+  cases o with
+  | finst d => simp [gtli] at h; simp [getItem, h]
+  | fcls hd => simp only [gtli] at h; simp [getItem, someDecl_ok h]
+  | noneV => simp [gtli] at h
+  | ty a => simp [getItem, getItemFallback, h]
+  | alias t og args => simp [getItem, getItemFallback, h]
+  | tUnion ms => simp [getItem, getItemFallback, h]
+  | uType ms => simp [getItem, getItemFallback, h]
+  | noneTy => simp [getItem, getItemFallback, h]
   | scls d => simp [gtli] at h; simp [getItem, h]
 
 /-- the same, through the `Good` invariant: an expression that may be an argument of a typedpy field -/
-theorem getItem_good {s : Sp} {o : Obj} (g : Good s o) (h : itemOk s = true) : getItem ptm o = .ok (denote s) :=
-  getItem_of_gtli g.gt (by rw [g.su]; simpa [itemOk] using h)
+theorem getItem_good {s : Sp} {o : Obj} (g : Good s o) (_h : itemOk s = true) : getItem ptm o = .ok (denote s) :=
+  getItem_of_gtli' g.gt
 
 /-- ... a Field or a Structure class in particular -/
 theorem getItem_fieldObj {o : Obj} {m : FieldDecl} (h : gtli ptm o = .ok (some m))
@@ -132,25 +144,25 @@ theorem mapToField_good {s : Sp} {o : Obj} (g : Good s o) (h : isFieldOrStruct s
     have h2 : isStructSp s = false := by rw [← hsc]; rfl
     simp [h1, h2] at h
 
-theorem callItem_good {s : Sp} {o : Obj} (c : Coll) (g : Good s o)
-    (h : (isFieldExpr s || (isStructSp s && c != Coll.tuple)) = true) :
+theorem callItem_good {s : Sp} {o : Obj} (c : Coll) (g : Good s o) (h : isFieldOrStruct s = true) :
     callItem c o = .ok (some (denote s)) := by
-  have hm : mapToField o = .ok (some (denote s)) := by
-    apply mapToField_good g
-    simp only [isFieldOrStruct, Bool.or_eq_true, Bool.and_eq_true] at h ⊢
-    rcases h with h | h
-    · exact Or.inl h
-    · exact Or.inr h.1
-  simp only [callItem, hm]
-  by_cases hc : (c == Coll.tuple && isSclsObj o) = true
-  · exfalso
-    simp only [Bool.and_eq_true] at hc
-    have hs : isStructSp s = true := by rw [← g.sc]; exact hc.2
-    have hf : isFieldExpr s = false := by
-      cases s <;> first | rfl | simp [isStructSp] at hs
-    have hct : c = Coll.tuple := by simpa using hc.1
-    simp [hf, hs, hct] at h
-  · simp [hc]
+  simp only [callItem, mapToField_good g h]
+
+/-- one entry of `Tuple(items=[…])`: a Field or a Structure class -/
+theorem tupleItem_good {s : Sp} {o : Obj} (g : Good s o) (h : isFieldOrStruct s = true) :
+    tupleItem o = .ok (denote s) := by
+  have hg := g.gt
+  have hfo := g.fo
+  have hsc := g.sc
+  simp only [isFieldOrStruct, Bool.or_eq_true] at h
+  cases o with
+  | finst d => simp [gtli] at hg; simp [tupleItem, hg]
+  | fcls hd => simp only [gtli] at hg; simpa [tupleItem] using someDecl_ok hg
+  | scls d => simp [gtli] at hg; simp [tupleItem, hg]
+  | _ =>
+    have h1 : isFieldExpr s = false := by rw [← hfo]; rfl
+    have h2 : isStructSp s = false := by rw [← hsc]; rfl
+    simp [h1, h2] at h
 
 theorem tupleItem_of_gtli {o : Obj} {m : FieldDecl} (h : gtli ptm o = .ok (some m)) (hf : isFieldObj o = true) :
     tupleItem o = .ok m := by
@@ -580,10 +592,8 @@ theorem ev_good : ∀ s : Sp, supported ptm s = true → ∃ o, ev ptm s = .ok o
     simp only [supported, Bool.and_eq_true] at h
     obtain ⟨ox, hex, gx⟩ := ihx h.1.1.1
     obtain ⟨oy, hey, gy⟩ := ihy h.1.1.2
-    have hfx : isFieldObj ox = true := by rw [gx.fo]; exact h.1.2
-    have hfy : isFieldObj oy = true := by rw [gy.fo]; exact h.2
     exact ⟨.finst (.tuplePos [denote x, denote y] false),
-      by simp [ev, hex, hey, tupleItem_of_gtli gx.gt hfx, tupleItem_of_gtli gy.gt hfy, mkItems],
+      by simp [ev, hex, hey, tupleItem_good gx h.1.2, tupleItem_good gy h.2, mkItems],
       good_finst _ _ rfl rfl⟩
 
 theorem sameMeaning_denote {s t : Sp} (h : SameMeaning s t) : denote s = denote t := by
@@ -747,8 +757,8 @@ theorem fieldMeaning_same (O : Oracles) {a b : FieldSp} (h : FieldSame a b) : fi
 /-- where string annotations are claimed to work, the scope and the quoting do not matter -/
 theorem elabFieldAt_eq (sc : Scope) (O : Oracles) (future : Bool) (fs : FieldSp) (h : stringOk sc future fs = true) :
     elabFieldAt sc O ptm future fs = elabField O ptm future fs := by
-  simp only [stringOk, Bool.and_eq_true, Bool.not_eq_true'] at h
-  simp [elabFieldAt, h.1, h.2]
+  simp only [stringOk, Bool.not_eq_true'] at h
+  simp [elabFieldAt, h]
 
 theorem elabFields_same (O : Oracles) (s₁ s₂ : Scope) (f₁ f₂ : Bool) {as bs : List FieldSp} (h : ClassSame as bs)
     (ha : as.all (fieldSupportedAt O ptm s₁ f₁) = true) (hb : bs.all (fieldSupportedAt O ptm s₂ f₂) = true) :
